@@ -69,4 +69,19 @@ theorem stale_deleted_hides_row :
       { cache := [("T", ⟨[(rsX, [("name", .atom (.str "b"))])], []⟩)], deleted := [rsX] } "T" []).toOption.map (·.1) = some [] := by
   decide +kernel
 
+
+/-- **C03 (ordering)** the four ordering functions on integers are the order of the integers: whatever
+    their size, no rounding stands between two of them (the code compares Go ints; a comparison through
+    float64 would identify 2^53 and 2^53 + 1) -/
+theorem order_on_integers_exact (x y : Int) :
+    evalCond .lt (.atom (.int x)) (.atom (.int y)) = .ok (decide (x < y)) ∧
+    evalCond .le (.atom (.int x)) (.atom (.int y)) = .ok (decide (x ≤ y)) ∧
+    evalCond .gt (.atom (.int x)) (.atom (.int y)) = .ok (decide (x > y)) ∧
+    evalCond .ge (.atom (.int x)) (.atom (.int y)) = .ok (decide (x ≥ y)) := by
+  simp [evalCond, cmpAtoms, Value.kindTag]
+
+example : evalCond .gt (.atom (.int (2^53 + 1))) (.atom (.int (2^53))) = .ok true := by
+  rw [(order_on_integers_exact (2^53 + 1) (2^53)).2.2.1]
+  simp
+
 end Ovsdb.C03
